@@ -56,7 +56,12 @@ DeclIssues(h) ==
 \* one C symbol is defined once
 DupDefs == {Abi.cdefs[i].name : i \in {j \in 1..Len(Abi.cdefs) : \E k \in 1..Len(Abi.cdefs) : k # j /\ Abi.cdefs[k].name = Abi.cdefs[j].name}}
 \* the SWIG module wraps exactly the public header
-SwigOK == Abi.swig.includes = <<"masa.h">> /\ Abi.swig.imports = <<>> /\ Abi.swig.module = <<"masa">>
+\* ... masa.i consists of %module masa and %include "masa.h" and no other directive (%ignore, %rename, %extend, %inline ...
+\* would make the module differ from the header), and the header shows SWIG (macro SWIG defined) exactly the functions it
+\* shows a C caller, which are exactly the functions of its extern "C" block
+SameDecls(a, b) == Seq2Set(a) = Seq2Set(b)
+SwigOK == /\ Abi.swig.includes = <<"masa.h">> /\ Abi.swig.imports = <<>> /\ Abi.swig.module = <<"masa">> /\ Abi.swig.directives = <<>>
+          /\ SameDecls(Abi.swigview, Abi.cview) /\ SameDecls(Abi.cview, Abi.cdecls) /\ Len(Abi.swigview) = Len(Abi.cdecls)
 
 Report(tag, name, what) == PrintT("ABI " \o tag \o " " \o name \o " " \o what)
 FortranBad == {i \in 1..Len(Abi.fortran) : \E w \in FortranIssues(Abi.fortran[i]) : ~IsKnown(Abi.fortran[i].fname, w)}
@@ -69,6 +74,9 @@ AbiOK ==
   /\ \A i \in DeclBad : \A w \in DeclIssues(Abi.cdecls[i]) : Report("VIOLATION header", Abi.cdecls[i].name, w)
   /\ \A n \in DupDefs : Report("VIOLATION cdef", n, "defined-twice")
   /\ (SwigOK \/ Report("VIOLATION swig", "masa.i", "does not wrap exactly masa.h"))
+  /\ \A d \in Seq2Set(Abi.cdecls) \ Seq2Set(Abi.swigview) : Report("VIOLATION swig", d.name, "declared by the header but hidden from SWIG")
+  /\ \A d \in Seq2Set(Abi.swigview) \ Seq2Set(Abi.cdecls) : Report("VIOLATION swig", d.name, "shown to SWIG only")
+  /\ \A d \in (Seq2Set(Abi.cdecls) \ Seq2Set(Abi.cview)) \cup (Seq2Set(Abi.cview) \ Seq2Set(Abi.cdecls)) : Report("VIOLATION header", d.name, "conditionally declared")
   /\ PrintT("ABI COUNTS " \o ToString(Len(Abi.fortran)) \o " " \o ToString(Len(Abi.cdecls)) \o " " \o ToString(Len(Abi.cdefs)))
   /\ FortranBad = {} /\ DeclBad = {} /\ DupDefs = {} /\ SwigOK
   \* the tables are not vacuous
